@@ -431,3 +431,77 @@ Proof.
     { symmetry. apply Z.div_unique with (r := r - 1); [lia | nia]. }
     rewrite Hq. f_equal. nia.
 Qed.
+
+(* ---------- transposed convolution ---------- *)
+Lemma zsum_single (n : nat) (f : nat -> Z) (i0 : nat) :
+  (i0 < n)%nat -> (forall i, (i < n)%nat -> i <> i0 -> f i = 0) -> zsum (map f (seq 0 n)) = f i0.
+Proof.
+  intros Hi H. replace n with (i0 + (1 + (n - i0 - 1)))%nat by lia.
+  rewrite !seq_app, !map_app, !zsum_app. cbn [seq map zsum fold_right Nat.add].
+  rewrite zsum_map_zero, zsum_map_zero; [lia | |].
+  - intros j Hj. apply in_seq in Hj. apply H; lia.
+  - intros j Hj. apply in_seq in Hj. apply H; lia.
+Qed.
+
+(* all input samples that land on position j of the zero-inserted signal: that signal's value at j *)
+Lemma landing_samples n s x j (v : Z) :
+  0 < s ->
+  zsum (map (fun i => ind (Z.of_nat i * s =? j) (x i * v)) (seq 0 n)) = upsampled n s x j * v.
+Proof.
+  intros Hs. unfold upsampled.
+  destruct (Z.leb_spec 0 j) as [H0|H0]; cbn [andb].
+  2:{ rewrite zsum_map_zero; [lia|]. intros i _. unfold ind. destruct (Z.eqb_spec (Z.of_nat i * s) j); [nia | reflexivity]. }
+  destruct (Z.ltb_spec j (Z.of_nat n * s)) as [H1|H1]; cbn [andb].
+  2:{ rewrite zsum_map_zero; [lia|]. intros i Hi. apply in_seq in Hi. unfold ind.
+      destruct (Z.eqb_spec (Z.of_nat i * s) j); [nia | reflexivity]. }
+  destruct (Z.eqb_spec (j mod s) 0) as [Hm|Hm].
+  - assert (Hj : j = j / s * s) by (pose proof (Z.div_mod j s ltac:(lia)); lia).
+    assert (Hq : 0 <= j / s < Z.of_nat n) by (split; [apply Z.div_pos; lia | apply Z.div_lt_upper_bound; lia]).
+    rewrite (zsum_single n _ (Z.to_nat (j / s))).
+    + unfold ind. rewrite Z2Nat.id by lia. rewrite <- Hj, Z.eqb_refl. reflexivity.
+    + lia.
+    + intros i Hi Hne. unfold ind. destruct (Z.eqb_spec (Z.of_nat i * s) j) as [He|]; [|reflexivity].
+      exfalso. apply Hne. assert (Z.of_nat i = j / s) by nia. lia.
+  - rewrite zsum_map_zero; [lia|]. intros i _. unfold ind.
+    destruct (Z.eqb_spec (Z.of_nat i * s) j) as [He|]; [|reflexivity].
+    exfalso. apply Hm. rewrite <- He. apply Z.mod_mul. lia.
+Qed.
+
+Lemma zsum_rev_index (K : nat) : forall (f : nat -> Z),
+  zsum (map f (seq 0 K)) = zsum (map (fun k' => f (K - 1 - k')%nat) (seq 0 K)).
+Proof.
+  induction K as [|K IH]; intros f; [reflexivity|].
+  change (seq 0 (S K)) with (0%nat :: seq 1 K) at 1. rewrite <- seq_shift, map_cons, map_map.
+  rewrite (seq_S K 0), map_app, zsum_app. cbn [map zsum fold_right Nat.add].
+  fold (zsum (map (fun x => f (S x)) (seq 0 K))).
+  rewrite (IH (fun k => f (S k))).
+  replace (S K - 1 - K)%nat with 0%nat by lia.
+  assert (He : zsum (map (fun k' => f (S (K - 1 - k'))) (seq 0 K)) = zsum (map (fun k' => f (S K - 1 - k')%nat) (seq 0 K))).
+  { apply zsum_ext. intros a Ha. apply in_seq in Ha. f_equal. lia. }
+  rewrite He. lia.
+Qed.
+
+(* the hardware's convolution over the zero-inserted input with the flipped kernel and K - 1 - pt zeros in front is the
+   reference's transposed convolution, at every output position *)
+Theorem tconv_as_conv_lemma n K s pt x w o :
+  0 < s -> tconv_hw n K s (Z.of_nat K - 1 - pt) x w o = tconv_ref n K s pt x w o.
+Proof.
+  intros Hs. unfold tconv_hw, tconv_ref. symmetry.
+  rewrite (zsum_rev_index K (fun k => zsum (map (fun i => ind (Z.of_nat i * s - pt + Z.of_nat k =? o) (x i * w k)) (seq 0 n)))).
+  apply zsum_ext. intros k' Hk. apply in_seq in Hk.
+  set (k := (K - 1 - k')%nat).
+  assert (Hk' : Z.of_nat k = Z.of_nat K - 1 - Z.of_nat k') by (unfold k; lia).
+  set (j := o - (Z.of_nat K - 1 - pt) + Z.of_nat k').
+  transitivity (zsum (map (fun i => ind (Z.of_nat i * s =? j) (x i * w k)) (seq 0 n))).
+  - apply zsum_ext. intros i _. unfold ind, j.
+    destruct (Z.eqb_spec (Z.of_nat i * s - pt + Z.of_nat k) o);
+      destruct (Z.eqb_spec (Z.of_nat i * s) (o - (Z.of_nat K - 1 - pt) + Z.of_nat k')); try reflexivity; lia.
+  - rewrite (landing_samples n s x j (w k) Hs). ring.
+Qed.
+
+Theorem tconv_pad_ok_sound_lemma n K s on top bottom :
+  tconv_pad_ok n K s on top bottom = true ->
+  top = K - 1 - tconv_ref_pad n K s on /\ on - n * s - top + K - 1 <= bottom /\ 0 <= bottom.
+Proof.
+  unfold tconv_pad_ok. intros H. apply andb_true_iff in H as [H1 H2]. apply Z.eqb_eq in H1. apply Z.leb_le in H2. lia.
+Qed.
